@@ -41,6 +41,7 @@ type Result struct {
 	Diverged    int64      `json:"diverged"`
 	Retries     int64      `json:"retries"`
 	DivSample   string     `json:"divSample,omitempty"`
+	Unconfirmed int64      `json:"unconfirmed"`
 	Horizon     int64      `json:"horizon"`
 	Unsettled   int64      `json:"unsettled"`
 	MaxPreempt  int        `json:"maxPreempt"`
@@ -119,8 +120,10 @@ func Explore(cfg *harness.Config, rep *harness.Report, p *pool.Pool, programs []
 				mu.Unlock()
 				return
 			}
-			j := queue[len(queue)-1]
-			queue = queue[:len(queue)-1]
+			// FIFO: every program advances evenly, so a deadline cuts all of them
+			// at a similar depth instead of starving the first ones
+			j := queue[0]
+			queue = queue[1:]
 			outstanding++
 			inflight[idx] = j
 			idx++
@@ -159,6 +162,9 @@ func Explore(cfg *harness.Config, rep *harness.Report, p *pool.Pool, programs []
 		st.Steps += res.Steps
 		st.Diverged += res.Diverged
 		st.Retries += res.Retries
+		if res.Unconfirmed > 0 {
+			rep.Add("violations_not_reproduced_on_replay", res.Unconfirmed)
+		}
 		if res.DivSample != "" {
 			rep.Set("divergence_sample", res.DivSample)
 		}
